@@ -26,8 +26,14 @@ def find_offset_loops(fn_node):
                 zero_vars[st.targets[0].id] = st
             elif isinstance(st, (ast.For, ast.While)):
                 assigned = {t.id for x in ast.walk(st) if isinstance(x, (ast.Assign, ast.AugAssign)) for t in (x.targets if isinstance(x, ast.Assign) else [x.target]) if isinstance(t, ast.Name)}
+                windowed = set()
+                for x in ast.walk(st):
+                    if isinstance(x, ast.Slice) and isinstance(x.lower, ast.Name):
+                        windowed.add(x.lower.id)
+                    elif isinstance(x, ast.Call) and A.call_attr(x) in ("slice", "range") and len(x.args) >= 2 and isinstance(x.args[0], ast.Name):
+                        windowed.add(x.args[0].id)
                 for v in zero_vars:
-                    if v in assigned:
+                    if v in assigned or v in windowed:
                         out.append((st, v))
     return out
 
